@@ -305,8 +305,9 @@ def parse_version_info(version_str: str, raw_pattern: str = "vYYYY0M.BUILD[-TAG]
         field_values = match.groupdict()
         try:
             return parse_field_values_to_vinfo(field_values)
-        except ValueError as ex:
-            # e.g. "day is out of range for month" for 2021.02.30
+        except (ValueError, OverflowError) as ex:
+            # e.g. "day is out of range for month" for 2021.02.30,
+            #   "date value out of range" for 9999.366
             err_msg = f"Invalid version string '{version_str}' for pattern '{raw_pattern}': {ex}"
             raise version.PatternError(err_msg)
 
